@@ -22,7 +22,7 @@ pub struct Cfg {
     pub options: bool,
     pub count_is_flowsets: bool, // V9 header count = number of flowsets (self-delimiting form)
     pub signed_wide: bool,       // signed 8/16-byte values (narrowing finding D9)
-    pub cross_kind: bool,        // reuse an id across template kinds (finding D11)
+    pub cross_kind: bool,        // reuse an id across template kinds (the later definition replaces the earlier)
     pub nonzero_padding: bool,
 }
 
@@ -249,6 +249,7 @@ impl Exporter {
             }
         }
         let t = V9Tmpl { id, fields };
+        self.v9_o.remove(&id);
         self.v9_t.insert(id, t.clone());
         t
     }
@@ -276,6 +277,7 @@ impl Exporter {
             })
             .collect();
         let t = V9OptTmpl { id, scope, opts };
+        self.v9_t.remove(&id);
         self.v9_o.insert(id, t.clone());
         t
     }
@@ -454,6 +456,7 @@ impl Exporter {
     pub fn ipfix_new_template(&mut self, rng: &mut Rng, cfg: &Cfg, pools: &Pools) -> IpfixTmpl {
         let id = self.ix_free_id(rng, cfg, false);
         let t = IpfixTmpl { id, fields: self.ipfix_specs(rng, cfg, pools) };
+        self.ix_o.remove(&id);
         self.ix_t.insert(id, t.clone());
         t
     }
@@ -462,6 +465,7 @@ impl Exporter {
         let fields = self.ipfix_specs(rng, cfg, pools);
         let scope_count = 1 + rng.usize(fields.len()) as u16;
         let t = IpfixOptTmpl { id, scope_count, fields };
+        self.ix_t.remove(&id);
         self.ix_o.insert(id, t.clone());
         t
     }
